@@ -20,7 +20,7 @@ import (
 	"strconv"
 )
 
-func init() { extraSections = append(extraSections, factsFraming) }
+func init() { extraSections = append(extraSections, section{"framing", factsFraming}) }
 
 // limitOf returns N of the first `if <v> > N {... return ...}` statement inside fn.
 func limitOf(fn *ast.FuncDecl, v string) int64 {
